@@ -7,6 +7,7 @@ import (
 	"encoding/xml"
 	"fmt"
 	"io"
+	"regexp"
 	"strings"
 	"time"
 
@@ -14,15 +15,16 @@ import (
 	"mellium.im/xmpp/jid"
 	"mellium.im/xmpp/stanza"
 	"mellium.im/xmpp/stream"
+	"mellium.im/xmpp/websocket"
 
 	"verifharness/vt"
 )
 
 const (
-	ownFull  = "test@example.net/res"
-	ownBare  = "test@example.net"
-	peerAddr = "juliet@example.com/b"
-	streamNS = "http://etherx.jabber.org/streams"
+	streamNS  = "http://etherx.jabber.org/streams"
+	framingNS = "urn:ietf:params:xml:ns:xmpp-framing"
+	bindNS    = "urn:ietf:params:xml:ns:xmpp-bind"
+	peerAddr  = "juliet@example.com/b"
 )
 
 func stanzaNSOf(sym string) string {
@@ -32,8 +34,79 @@ func stanzaNSOf(sym string) string {
 	return stanza.NSClient
 }
 
-// nopNeg is a Negotiator that reads the peer's stream header and declares the session ready.
-func nopNeg(ns string) xmpp.Negotiator {
+// sessRec is a session of tla/ServeLoop.tla (operator Sess): how it is made and where its own
+// address comes from.
+type sessRec struct {
+	Kind string `json:"kind"` // c2s | s2s | rc2s | rs2s | ws
+	Neg  string `json:"neg"`  // custom | lib
+	Hdr  string `json:"hdr"`  // same | other | none: the "to" of the peer's stream header
+	Bind bool   `json:"bind"` // negotiation ends by binding address B
+}
+
+func (r sessRec) String() string {
+	return fmt.Sprintf("%s/%s/hdr=%s/bind=%v", r.Kind, r.Neg, r.Hdr, r.Bind)
+}
+
+func (r sessRec) received() bool { return r.Kind == "rc2s" || r.Kind == "rs2s" }
+func (r sessRec) ns() string {
+	if r.Kind == "s2s" || r.Kind == "rs2s" {
+		return stanza.NSServer
+	}
+	return stanza.NSClient
+}
+
+// symAddr maps the address symbols of the specification (A given to the constructor, H named
+// by the peer's header, B bound, X never the session's) to concrete addresses: accounts on
+// sessions whose local side is a client, domains where it is a server.
+func (r sessRec) symAddr(sym string) string {
+	if r.Kind == "c2s" || r.Kind == "ws" {
+		return map[string]string{"A": "test@example.net/res", "H": "alias@example.net/h", "B": "bound@example.net/dev", "X": "never@example.net/x"}[sym]
+	}
+	return map[string]string{"A": "example.net", "H": "vhost.example.net", "B": "bound.example.net", "X": "never.example.net"}[sym]
+}
+
+// remote is the address of the peer of the stream.
+func (r sessRec) remote() string {
+	switch r.Kind {
+	case "c2s", "ws":
+		return "example.net"
+	case "rc2s":
+		return "user@example.net"
+	}
+	return "example.com"
+}
+
+func bareOf(a string) string {
+	if i := strings.IndexByte(a, '/'); i >= 0 {
+		return a[:i]
+	}
+	return a
+}
+
+func fullOf(a string) string {
+	if strings.IndexByte(a, '/') >= 0 {
+		return a
+	}
+	return a + "/res"
+}
+
+// addrs are the concrete addresses of one running session. Own is computed from the session
+// itself (LocalAddr().Bare()) after negotiation, not from the way it was made.
+type addrs struct {
+	Own     string // the session's own bare address
+	OwnFull string // a full address of the same account / domain
+	Was     string // bare form of an address that is not the session's (any more)
+	Peer    string // another entity
+	Domain  string // a server that is not the session's own address
+	NS      string // the stream's stanza namespace
+	OtherNS string
+	WS      bool // WebSocket framing: every element names its namespace
+}
+
+// customNeg is a Negotiator of the application: it reads the peer's stream header into the
+// session (as the library's own negotiators do), optionally binds another address, and
+// declares the session ready.
+func customNeg(ns string, bind string) xmpp.Negotiator {
 	return func(ctx context.Context, in, out *stream.Info, s *xmpp.Session, data interface{}) (xmpp.SessionState, io.ReadWriter, interface{}, error) {
 		rc := s.TokenReader()
 		defer rc.Close()
@@ -50,12 +123,99 @@ func nopNeg(ns string) xmpp.Negotiator {
 			}
 		}
 		out.XMLNS = ns
+		if bind != "" {
+			s.UpdateAddr(jid.MustParse(bind))
+		}
 		return xmpp.Ready, nil, nil, nil
 	}
 }
 
-func streamHeader(ns string) string {
-	return fmt.Sprintf(`<stream:stream from="example.net" to="%s" id="s1" version="1.0" xmlns="%s" xmlns:stream="%s">`, ownBare, ns, streamNS)
+func tcpHeader(ns, from, to string) string {
+	toAttr := ""
+	if to != "" {
+		toAttr = fmt.Sprintf(` to="%s"`, to)
+	}
+	return fmt.Sprintf(`<stream:stream from="%s"%s id="s1" version="1.0" xmlns="%s" xmlns:stream="%s">`, from, toAttr, ns, streamNS)
+}
+
+var bindIDRe = regexp.MustCompile(`<iq[^>]*\sid="([^"]*)"`)
+
+// openSession feeds the peer's part of the negotiation of r into conn and makes the session.
+func openSession(r sessRec, local, was string, conn *vt.Conn) (*xmpp.Session, *addrs, error) {
+	ctx, cancel := context.WithTimeout(context.Background(), 10*time.Second)
+	defer cancel()
+	ns := r.ns()
+	a := r.symAddr("A")
+	to := ""
+	switch r.Hdr {
+	case "same":
+		to = bareOf(a)
+		if r.Neg == "lib" {
+			to = a // the library's negotiator insists on the exact address
+		}
+	case "other":
+		to = r.symAddr("H")
+	}
+	libCfg := func(features ...xmpp.StreamFeature) xmpp.Negotiator {
+		return xmpp.NewNegotiator(func(*xmpp.Session, *xmpp.StreamConfig) xmpp.StreamConfig {
+			return xmpp.StreamConfig{Features: features}
+		})
+	}
+	var s *xmpp.Session
+	var err error
+	bound := ""
+	if r.Bind {
+		bound = r.symAddr("B")
+	}
+	var state xmpp.SessionState
+	if ns == stanza.NSServer {
+		state |= xmpp.S2S
+	}
+	switch {
+	case r.Kind == "ws":
+		conn.FeedString(fmt.Sprintf(`<open xmlns="%s" from="%s" to="%s" id="s1" version="1.0"/><stream:features xmlns:stream="%s"/>`,
+			framingNS, r.remote(), to, streamNS))
+		s, err = websocket.NewSession(ctx, jid.MustParse(a), conn)
+	case r.Neg == "custom" && !r.received():
+		conn.FeedString(tcpHeader(ns, r.remote(), to))
+		s, err = xmpp.NewSession(ctx, jid.MustParse(r.remote()), jid.MustParse(a), conn, state, customNeg(ns, bound))
+	case r.Neg == "custom":
+		conn.FeedString(tcpHeader(ns, r.remote(), to))
+		s, err = xmpp.ReceiveSession(ctx, conn, state, customNeg(ns, bound))
+	case r.Kind == "rc2s": // the library's negotiator, the client binds a resource
+		conn.FeedString(tcpHeader(ns, r.remote(), to) + `<iq type="set" id="b1"><bind xmlns="` + bindNS + `"/></iq>`)
+		s, err = xmpp.ReceiveSession(ctx, conn, xmpp.Secure|xmpp.Authn, libCfg(xmpp.BindResource()))
+	case r.Bind: // the library's negotiator, the server assigns address B
+		conn.FeedString(tcpHeader(ns, r.remote(), to) + `<stream:features><bind xmlns="` + bindNS + `"/></stream:features>`)
+		conn.React = func([]byte) {
+			w := conn.WireString()
+			if i := strings.Index(w, bindNS); i >= 0 && strings.Contains(w[i:], "</iq>") {
+				if m := bindIDRe.FindStringSubmatch(w); m != nil {
+					conn.React = nil
+					conn.FeedString(fmt.Sprintf(`<iq type="result" id="%s"><bind xmlns="%s"><jid>%s</jid></bind></iq>`, m[1], bindNS, bound))
+				}
+			}
+		}
+		s, err = xmpp.NewSession(ctx, jid.MustParse(r.remote()), jid.MustParse(a), conn, state|xmpp.Secure|xmpp.Authn, libCfg(xmpp.BindResource()))
+		conn.React = nil
+	default:
+		conn.FeedString(tcpHeader(ns, r.remote(), to) + `<stream:features/>`)
+		s, err = xmpp.NewSession(ctx, jid.MustParse(r.remote()), jid.MustParse(a), conn, state, libCfg())
+	}
+	if err != nil {
+		return nil, nil, fmt.Errorf("negotiation of %v failed: %w", r, err)
+	}
+	// the binding of the specification's address rule (operator Local) to this session
+	own := s.LocalAddr().Bare().String()
+	if want := bareOf(r.symAddr(local)); own != want {
+		return nil, nil, fmt.Errorf("session %v: LocalAddr().Bare() is %q, the specification's rule gives %s = %q", r, own, local, want)
+	}
+	ad := &addrs{Own: own, OwnFull: fullOf(s.LocalAddr().String()), Was: bareOf(r.symAddr(was)), Peer: peerAddr, Domain: "example.org",
+		NS: ns, OtherNS: stanza.NSServer, WS: r.Kind == "ws"}
+	if ns == stanza.NSServer {
+		ad.OtherNS = stanza.NSClient
+	}
+	return s, ad, nil
 }
 
 type served struct {
@@ -63,22 +223,47 @@ type served struct {
 	Err     error
 	Panic   string
 	Stalled bool
-	Unread  int // input bytes never consumed
+	Setup   string // the session could not be made as described (not a verdict)
+	Unread  int    // input bytes never consumed
+	Addrs   *addrs
+	Input   string // what the peer sent after negotiation
 }
 
-// serveInput runs one real session over input (everything after the stream header; the
-// transport reports EOF after it) with handler h and returns what was written.
-func serveInput(ns, input string, h xmpp.Handler) served {
+// serveSession makes the session r, then runs Serve with handler h over the chunks that
+// render returns (everything after negotiation; the transport reports EOF after the last
+// one). Between two chunks - when Serve has consumed everything before - the local side
+// calls Close().
+func serveSession(r sessRec, local, was string, render func(a *addrs) []string, h xmpp.Handler) served {
 	conn := vt.NewConn()
-	conn.FeedString(streamHeader(ns) + input)
-	conn.CloseIn()
 	var res served
-	s, err := xmpp.NewSession(context.Background(), jid.MustParse("example.net"), jid.MustParse(ownFull), conn, 0, nopNeg(ns))
+	s, ad, err := openSession(r, local, was, conn)
 	if err != nil {
-		res.Err = fmt.Errorf("driver: session setup failed: %w", err)
-		res.Panic = res.Err.Error()
+		res.Setup = err.Error()
+		conn.Close()
 		return res
 	}
+	res.Addrs = ad
+	pre := len(conn.WireString())
+	preIn := conn.Consumed()
+	chunks := render(ad)
+	res.Input = strings.Join(chunks, "")
+	next := 0
+	feed := func() {
+		// feed chunks until something is there to read; Close() before every chunk but the first
+		for conn.InputEmpty() {
+			if next == len(chunks) {
+				conn.CloseIn()
+				return
+			}
+			if next > 0 {
+				s.Close()
+			}
+			conn.FeedString(chunks[next])
+			next++
+		}
+	}
+	feed()
+	conn.Starve = feed
 	done := make(chan struct{})
 	go func() {
 		defer close(done)
@@ -96,8 +281,8 @@ func serveInput(ns, input string, h xmpp.Handler) served {
 		conn.Close()
 		return res
 	}
-	res.Wire = conn.WireString()
-	res.Unread = len(streamHeader(ns)+input) - conn.Consumed()
+	res.Wire = conn.WireString()[pre:]
+	res.Unread = len(res.Input) - (conn.Consumed() - preIn)
 	return res
 }
 
@@ -118,7 +303,7 @@ type topOut struct {
 // harness negotiator) into abstract top-level elements; closed reports a closing stream tag.
 func parseOut(wire, ns string) (outs []topOut, closed bool, err error) {
 	outs = []topOut{}
-	d := xml.NewDecoder(strings.NewReader(streamHeader(ns) + wire))
+	d := xml.NewDecoder(strings.NewReader(tcpHeader(ns, "example.net", "") + wire))
 	depth := 0
 	var cur *topOut
 	for {
@@ -138,6 +323,10 @@ func parseOut(wire, ns string) (outs []topOut, closed bool, err error) {
 			depth++
 			switch depth {
 			case 2:
+				if t.Name.Space == framingNS && t.Name.Local == "close" {
+					closed = true // the closing element of the WebSocket framing
+					continue
+				}
 				o := topOut{Local: t.Name.Local, NS: "foreign"}
 				switch t.Name.Space {
 				case ns:
